@@ -90,7 +90,7 @@ fn gen_ty(src: &mut Src, a: &mut Alloc, depth: usize, arity: Option<usize>) -> T
     }
     match src.pick(6) {
         0 | 1 | 2 => Ty::Tuple(members),
-        3 | 4 => Ty::DeriveNamed(src.pick(4) as u8, members),
+        3 | 4 => Ty::DeriveNamed(src.pick(5) as u8, members),
         _ => Ty::DeriveTuple(src.pick(2) as u8, members),
     }
 }
@@ -230,6 +230,19 @@ impl Emit {
                             format!("GOnlyW<'a, {}>", parts[0])
                         }
                     }
+                    4 if !parts.is_empty() => {
+                        // the last member is reached through an associated type of a type parameter
+                        let (last, init) = parts.split_last().unwrap();
+                        let fields: Vec<String> =
+                            init.iter().enumerate().map(|(i, p)| format!("    pub f{}: {},", i, p)).collect();
+                        self.defs.push_str(&format!(
+                            "pub struct B{name};\nimpl<'a> Bundle<'a> for B{name} {{\n    type Data = {last};\n}}\n#[derive(SystemData)]\npub struct {name}<'a, B: Bundle<'a>> {{\n{fields}\n    pub data: B::Data,\n    pub m: PhantomData<&'a ()>,\n}}\n",
+                            name = name,
+                            last = last,
+                            fields = fields.join("\n")
+                        ));
+                        format!("{}<'a, B{}>", name, name)
+                    }
                     2 | 3 if !parts.is_empty() => {
                         // the last member is supplied through a type parameter
                         let (last, init) = parts.split_last().unwrap();
@@ -342,8 +355,22 @@ pub fn emit_program(descs: &[(Ty, Vec<u16>)]) -> String {
             m = masks.join(", ")
         ));
     }
+    // distinct resource types that share one `type_name` (declared in sibling blocks): declared
+    // access must follow the type's identity, not its name
+    let mut local = String::new();
+    for (k, (t, _)) in descs.iter().enumerate().take(3) {
+        let other = reads(t).first().cloned().or_else(|| writes(t).first().cloned()).unwrap_or(k);
+        let payload = ["u64", "u32", "(u8, u8)"][k % 3];
+        local.push_str(&format!(
+            "    {{\n        #[derive(Default)]\n        struct Local({payload});\n        type TL<'a> = (Read<'a, Local>, Write<'a, R<{other}>>);\n        let want_r = vec![ResourceId::new::<Local>()];\n        let want_w = vec![ResourceId::new::<R<{other}>>()];\n        rep.types += 1;\n        if <TL as SystemData>::reads() != want_r || <TL as SystemData>::writes() != want_w {{\n            rep.failures.push((\"Local{k}\".to_string(), \"{{\\\"Tuple\\\":[{{\\\"Read\\\":0}}]}}\".to_string(), \"a tuple over the block-local resource type `Local` (same type_name as a sibling block's type) reports another type's resources\".to_string()));\n        }}\n        let mut world = World::empty();\n        <TL as SystemData>::setup(&mut world);\n        if !world.has_value::<Local>() {{\n            rep.failures.push((\"Local{k}\".to_string(), \"{{\\\"Tuple\\\":[{{\\\"Read\\\":0}}]}}\".to_string(), \"setup of a tuple over a block-local resource type did not create it\".to_string()));\n        }}\n    }}\n",
+            payload = payload,
+            other = other,
+            k = k
+        ));
+    }
+    body.push_str(&local);
     format!(
-        "// generated by vcheck (C06); do not edit\n#![allow(non_camel_case_types, clippy::all)]\nuse std::marker::PhantomData;\nuse shred::{{Read, ReadExpect, ResourceId, SystemData, World, Write, WriteExpect}};\nuse crate::rt::*;\n\n#[derive(SystemData)]\npub struct GOnlyB<'a, T: SystemData<'a>> {{\n    pub inner: T,\n    pub m: PhantomData<&'a ()>,\n}}\n#[derive(SystemData)]\npub struct GOnlyW<'a, T>\nwhere\n    T: SystemData<'a>,\n{{\n    pub inner: T,\n    pub m: PhantomData<&'a ()>,\n}}\n\n{}\n{}\npub fn run(rep: &mut Report) {{\n{}}}\n",
+        "// generated by vcheck (C06); do not edit\n#![allow(non_camel_case_types, clippy::all)]\nuse std::marker::PhantomData;\nuse shred::{{Read, ReadExpect, ResourceId, SystemData, World, Write, WriteExpect}};\nuse crate::rt::*;\n\npub trait Bundle<'a> {{\n    type Data: SystemData<'a>;\n}}\n\n#[derive(SystemData)]\npub struct GOnlyB<'a, T: SystemData<'a>> {{\n    pub inner: T,\n    pub m: PhantomData<&'a ()>,\n}}\n#[derive(SystemData)]\npub struct GOnlyW<'a, T>\nwhere\n    T: SystemData<'a>,\n{{\n    pub inner: T,\n    pub m: PhantomData<&'a ()>,\n}}\n\n{}\n{}\npub fn run(rep: &mut Report) {{\n{}}}\n",
         e.defs, aliases, body
     )
 }
@@ -409,7 +436,8 @@ pub fn run_program(descs: &[(Ty, Vec<u16>)]) -> Result<RunOut, String> {
     for l in stdout.lines().filter(|l| l.starts_with("C06-FAIL")) {
         let parts: Vec<&str> = l.splitn(4, '\t').collect();
         if parts.len() == 4 {
-            let idx = parts[1].trim_start_matches('T').parse::<usize>().unwrap_or(0);
+            // failures of the same-named-local-type blocks are reported as index usize::MAX
+            let idx = parts[1].trim_start_matches('T').parse::<usize>().unwrap_or(usize::MAX);
             failures.push((idx, parts[3].to_string()));
         }
     }
@@ -439,11 +467,19 @@ fn draw_streams(seed: u64, n: usize) -> Vec<Vec<u16>> {
 pub struct C06Replay {
     pub descriptor: Ty,
     pub stream: Vec<u16>,
+    /// further descriptors of the same program (the same-named local types come in blocks derived
+    /// from the first three descriptors)
+    #[serde(default)]
+    pub extra: Vec<Ty>,
 }
 
 pub fn replay_c06(v: &serde_json::Value) -> Result<Result<(), String>, String> {
     let r: C06Replay = serde_json::from_value(v.clone()).map_err(|e| e.to_string())?;
-    let out = run_program(&[(r.descriptor, r.stream)])?;
+    let mut descs = vec![(r.descriptor, r.stream.clone())];
+    for e in r.extra {
+        descs.push((e, r.stream.clone()));
+    }
+    let out = run_program(&descs)?;
     Ok(match out.failures.first() {
         None => Ok(()),
         Some((_, m)) => Err(m.clone()),
@@ -491,6 +527,9 @@ pub fn run_c06(quick: bool, seed: u64) -> SubResult {
             if subs.iter().any(|s| matches!(s, Ty::DeriveNamed(2, _) | Ty::DeriveNamed(3, _))) {
                 stats.class("with_type_parameter_derive");
             }
+            if subs.iter().any(|s| matches!(s, Ty::DeriveNamed(4, _))) {
+                stats.class("with_associated_type_derive");
+            }
             if subs.iter().any(|s| matches!(s, Ty::DeriveNamed(1, _) | Ty::DeriveTuple(1, _))) {
                 stats.class("with_extra_lifetime_derive");
             }
@@ -528,6 +567,22 @@ pub fn run_c06(quick: bool, seed: u64) -> SubResult {
                     }
                 }
                 if let Some((idx, msg)) = out.failures.first().cloned() {
+                    if idx == usize::MAX {
+                        let dirp = verif_dir().join("replays");
+                        let _ = std::fs::create_dir_all(&dirp);
+                        let path = dirp.join(format!("C06-c06-programs-seed{}.json", seed));
+                        let v = json!({"property": "C06", "check": "c06-programs", "message": msg,
+                            "case": C06Replay { descriptor: descs[0].0.clone(), stream: descs[0].1.clone(),
+                                extra: vec![descs[1].0.clone(), descs[2].0.clone()] }});
+                        let _ = std::fs::write(&path, serde_json::to_string_pretty(&v).unwrap());
+                        violation = Some(Violation {
+                            property: "C06".into(),
+                            check: "c06-programs".into(),
+                            msg,
+                            replay: path.to_string_lossy().to_string(),
+                        });
+                        break 'outer;
+                    }
                     // shrink: all sub-terms of the failing type as their own program
                     let (t, stream) = descs[idx].clone();
                     let mut subs = vec![];
@@ -546,7 +601,7 @@ pub fn run_c06(quick: bool, seed: u64) -> SubResult {
                     let _ = std::fs::create_dir_all(&dirp);
                     let path = dirp.join(format!("C06-c06-programs-seed{}.json", seed));
                     let v = json!({"property": "C06", "check": "c06-programs", "message": min_msg,
-                        "case": C06Replay { descriptor: min_t, stream }});
+                        "case": C06Replay { descriptor: min_t, stream, extra: vec![] }});
                     let _ = std::fs::write(&path, serde_json::to_string_pretty(&v).unwrap());
                     violation = Some(Violation {
                         property: "C06".into(),
